@@ -36,6 +36,28 @@ class Transformation(ABC):
 
     _pipeline: "ProcessingPipeline" | None = field(init=False, compare=False, default=None)
 
+    def __str__(self) -> str:
+        """
+        The dataclass representation with the processing item reduced to its identifier and
+        without the content of the owning pipeline. The pipeline contains tracking sets, their
+        representation (and therefore each error message that names the transformation) would
+        depend on the hash seed of the process.
+        """
+
+        def value(name: str) -> str:
+            if name == "_pipeline" and self._pipeline is not None:
+                return "..."
+            if name == "processing_item" and self.processing_item is not None:
+                return repr(self.processing_item.identifier)
+            return repr(getattr(self, name))
+
+        return (
+            type(self).__qualname__
+            + "("
+            + ", ".join(f"{f.name}={value(f.name)}" for f in dataclasses.fields(self) if f.repr)
+            + ")"
+        )
+
     @classmethod
     def from_dict(cls, d: dict[str, Any]) -> "Transformation":
         try:
